@@ -44,6 +44,7 @@ var (
 	errMissingValue  = errors.New("missing value after object name")
 	errMismatchDelim = errors.New("mismatching structural token for object or array")
 	errMaxDepth      = errors.New("exceeded max depth")
+	errEnclosingEnd  = errors.New("cannot end an object or array that encloses the value of a user-defined marshal or unmarshal call")
 
 	errInvalidNamespace = errors.New("object namespace is in an invalid state")
 )
@@ -232,6 +233,11 @@ func appendEscapePointerName(b, name []byte) []byte {
 type stateMachine struct {
 	Stack []stateEntry
 	Last  stateEntry
+
+	// Floor is the number of entries of Stack that may not be popped.
+	// It is raised while a user-defined marshal or unmarshal method or function
+	// runs so that it cannot close the JSON object or array enclosing its value.
+	Floor int
 }
 
 // reset resets the state machine.
@@ -242,6 +248,7 @@ func (m *stateMachine) reset() {
 		m.Stack = nil
 	}
 	m.Last = stateTypeArray
+	m.Floor = 0
 }
 
 // Depth is the current nested depth of JSON objects and arrays.
@@ -327,6 +334,8 @@ func (m *stateMachine) popObject() error {
 	switch {
 	case !m.Last.isObject():
 		return errMismatchDelim
+	case len(m.Stack) <= m.Floor: // forbid popping a JSON object that the current call did not open
+		return errEnclosingEnd
 	case m.Last.needObjectValue():
 		return errMissingValue
 	case !m.Last.isValidNamespace():
@@ -362,6 +371,8 @@ func (m *stateMachine) popArray() error {
 	switch {
 	case !m.Last.isArray() || len(m.Stack) == 0: // forbid popping top-level virtual JSON array
 		return errMismatchDelim
+	case len(m.Stack) <= m.Floor: // forbid popping a JSON array that the current call did not open
+		return errEnclosingEnd
 	case !m.Last.isValidNamespace():
 		return errInvalidNamespace
 	default:
